@@ -369,6 +369,7 @@ fn gen_inputs(rng: &mut Rng) -> (String, String, String, String, &'static str) {
             let ix = crate::schema_ix::SchemaIx::new(&sm);
             let mut oo = OpOpts::standard();
             oo.coercing_literals = rng.coin();
+            oo.shared_names = true;
             if let Some(d) = gen_valid_doc(rng, &ix, &oo) {
                 schema = render_ts(&sm, None, Feat::plain());
                 op = render_exec(&d, None, Feat::plain());
